@@ -178,6 +178,41 @@ def all_traces(maxlen):
     return out
 
 
+# ---- placement (c): `require` executed inside a compose block after k `wait`s
+
+COMPOSE_OFFSETS = (0, 1, 2)
+COMPOSE_MAXLEN = 3  # windows of the compose placements (both tiers)
+
+
+def compose_plan(place, n, L):
+    """How trace number n (trace index + a per-formula rotation) of length L is run for a
+    compose-block requirement.  Returns dict(k, s, mode):
+      k    `wait`s before the `require` in its compose block (offset of the effective step)
+      s    steps the parent takes before `do Sub()` (0 for the top-level scenario)
+      mode how the requirement's scenario ends:
+           ctop: cf  its compose block finishes          ms  Simulator maxSteps
+                 tw  `terminate when` of the scenario
+           csub: cf  the sub-scenario's compose block finishes
+                 ta  its `terminate after N steps`       for the parent's `do Sub() for N steps`
+                 ms  Simulator maxSteps while it is still running"""
+    k = COMPOSE_OFFSETS[n % len(COMPOSE_OFFSETS)]
+    if place == "ctop":
+        s = 0
+        mode = ("cf", "ms", "tw")[(n // 3) % 3]
+        if mode == "ms" and k + L - 1 == 0:  # maxSteps = 0 means "no limit"
+            mode = "cf"
+    else:
+        s = (n // 12) % 2
+        mode = ("cf", "ta", "for", "ms")[(n // 3) % 4]
+        if mode == "ta" and L == 1:
+            # the time limit is tested before the compose block runs: with N = k the
+            # statement would never be executed
+            mode = "cf"
+        if mode == "ms" and s + k + L - 1 == 0:
+            mode = "for"
+    return {"k": k, "s": s, "mode": mode}
+
+
 def text(tokens):
     """Scenic source of a formula from the token sequence printed by Temporal.tla."""
     return " ".join(f'tv("{t}")' if t in ATOMS else t for t in tokens).replace("( ", "(").replace(" )", ")")
